@@ -642,8 +642,10 @@ declaratortypes(struct scope *s, struct list *result, char **name, struct scope 
 				goto attr;
 			next();
 			t = mkarraytype(NULL, QUALNONE, 0);
-			while (consume(TSTATIC) || typequal(&t->u.array.ptrqual))
-				;
+			while (consume(TSTATIC) || typequal(&t->u.array.ptrqual)) {
+				if (!allowabstract || !name)
+					error(&tok.loc, "'static' and type qualifiers in an array declarator are only allowed for a parameter");
+			}
 			if (tok.kind == TMUL && peek(TRBRACK)) {
 				if (!allowabstract)
 					error(&tok.loc, "array of unspecified size is only allowed in function prototype scope");
